@@ -429,6 +429,13 @@ def run(chk):
                 "pool id) are compared line by line, and an independent monitor checks the property on the implementation's output alone. "
                 "Non-trivial = the call was accepted by the harness and answered ok/err (not bad-op); distinct = distinct call lines.")
     chk.obligations(MODS, drivers=["pool"])
+    # pool ids stay unique when pools are created and destroyed from several threads: the free-running
+    # ThreadSanitizer program of C19 creates/destroys Identifiable objects concurrently
+    try:
+        from props import C19 as _c19
+        _c19.run_tsan(chk, 20000 if quick else 200000, 90 if quick else 400)
+    except Exception as e:
+        chk.notes.append("concurrent id run skipped: %r" % (e,))
     exe = build.build_harness("h_pool")
 
     nh = 500 if quick else 20000
